@@ -15,6 +15,7 @@
 EXTENDS TemplateRules, Sort
 
 TextItem(s) == IF s = <<>> THEN <<>> ELSE <<[k |-> "text", v |-> s]>>
+OnlyText(items) == \A j \in 1..Len(items) : items[j].k = "text"
 BadItem(why) == <<[k |-> "bad", why |-> why]>>
 IsAttr(it) == it.k = "attr"
 
@@ -116,7 +117,8 @@ ApplyTo(nodes, k, mp, c) ==      \* mp = [mode, passed]
            kind == KindOf(c.f, n)
            here == IF rid # Builtin THEN RunTemplate(TemplateByRid(c.ss, rid), n, k, Len(nodes), mp.passed, c)
                    ELSE IF kind \in {"root", "elem"}                      \* built-in rules (5.8)
-                        THEN ApplyTo(DocOrderSeq(Axis(c.f, "child", n)), 1, [mode |-> mp.mode, passed |-> <<>>], c)
+                        THEN ApplyTo(DocOrderSeq(Axis(c.f, "child", n)), 1,
+                                     [mode |-> mp.mode, passed |-> IF c.builtinPass THEN mp.passed ELSE <<>>], c)
                    ELSE IF kind \in {"text", "attr"} THEN TextItem(StringValue(c.f, n))
                    ELSE <<>>
        IN here \o ApplyTo(nodes, k + 1, mp, c)
@@ -159,11 +161,14 @@ Inst(x, c) ==
              items == InstSeq(x.body, 1, c) IN
          IF nm.bad # "" THEN BadItem(nm.bad)
          ELSE IF HasBad(items) THEN BadItem(BadWhy(items))
+         ELSE IF ~OnlyText(items) THEN BadItem("err")      \* 7.1.3: creating nodes other than text nodes is an error
          ELSE <<[k |-> "attr", name |-> nm.s, v |-> ItemsText(items, 1)]>>
     [] x.i = "comment" -> LET items == InstSeq(x.body, 1, c) IN
-                          IF HasBad(items) THEN BadItem(BadWhy(items)) ELSE <<[k |-> "comment", v |-> ItemsText(items, 1)]>>
+                          IF HasBad(items) THEN BadItem(BadWhy(items)) ELSE IF ~OnlyText(items) THEN BadItem("err")
+                          ELSE <<[k |-> "comment", v |-> ItemsText(items, 1)]>>
     [] x.i = "pi" -> LET items == InstSeq(x.body, 1, c) IN
-                     IF HasBad(items) THEN BadItem(BadWhy(items)) ELSE <<[k |-> "pi", name |-> x.name, v |-> ItemsText(items, 1)]>>
+                     IF HasBad(items) THEN BadItem(BadWhy(items)) ELSE IF ~OnlyText(items) THEN BadItem("err")
+                     ELSE <<[k |-> "pi", name |-> x.name, v |-> ItemsText(items, 1)]>>
     [] x.i = "if" -> LET v == Eval(x.test, c) IN
                      IF Bad(v) THEN BadItem(v.t) ELSE IF ToBool(v) THEN InstSeq(x.body, 1, c) ELSE <<>>
     [] x.i = "choose" ->
@@ -209,7 +214,10 @@ RECURSIVE Globals(_, _, _)
 Globals(gs, j, c) == IF j > Len(gs) THEN c.vars
                      ELSE Globals(gs, j + 1, [c EXCEPT !.vars = Bind(c.vars, gs[j].name, BindingValue(gs[j], c))])
 
-Transform(ss, F) ==
+(* builtinPass = FALSE is XSLT 1.0 (5.8: the built-in rule is <xsl:apply-templates/>, which passes no      *)
+(* parameters).  TRUE describes a processor that hands the parameters it received on to the children      *)
+(* (XSLT 2.0 behaviour); it exists only so that a trace spec can NAME that deviation when it sees it.      *)
+TransformWith(ss, F, builtinPass) ==
   LET root == <<1, 1, 0>>
       tree == [id |-> 1, imports |-> <<>>,
                rules |-> SelectSeq([j \in 1..Len(ss.templates) |->
@@ -217,9 +225,11 @@ Transform(ss, F) ==
                                        hasPrio |-> ss.templates[j].hasPrio, prio |-> ss.templates[j].prio, hasMatch |-> ss.templates[j].hasMatch]],
                                    LAMBDA r : r.hasMatch)]
       c0 == [f |-> F, n |-> root, pos |-> 1, size |-> 1, vars |-> <<>>, cur |-> root, keys |-> <<>>,
-             ss |-> ss, entries |-> Entries(tree), gv |-> <<>>]
+             ss |-> ss, entries |-> Entries(tree), gv |-> <<>>, builtinPass |-> builtinPass]
       gv == Globals(ss.gvars, 1, c0)
       c1 == [c0 EXCEPT !.gv = gv, !.vars = gv]
       items == Normalize(ApplyTo(<<root>>, 1, [mode |-> "", passed |-> <<>>], c1))
   IN IF HasBad(items) THEN [bad |-> BadWhy(items), items |-> <<>>] ELSE [bad |-> "", items |-> items]
+
+Transform(ss, F) == TransformWith(ss, F, FALSE)
 =============================================================================
